@@ -38,6 +38,8 @@ func genCmpCase(rt *rapid.T, prop, op string, d DT, form, via, mode string, same
 }
 
 func genUnaryCase(rt *rapid.T, prop, op string, d DT, mode string, layouts []string) *EWCase {
+	cplxCodes = d.IsComplex()
+	defer func() { cplxCodes = false }()
 	shape := ewShape(rt)
 	lo, hi := valueRange(d)
 	c := &EWCase{Prop: prop, Fam: "unary", Op: op, DT: d.Name, Form: "T", Via: "pkg", Mode: mode}
@@ -67,6 +69,21 @@ func withMode(rt *rapid.T, c *EWCase, mode string, d DT) *EWCase {
 		if c.B == nil {
 			c.Mode = "reuseA"
 		}
+	case "reuseBv":
+		if c.B == nil {
+			c.Mode = "reuseAv"
+		}
+	}
+	// a whole-tensor view of an operand with gaps in its storage cannot be a reuse tensor: use compact operands
+	switch c.Mode {
+	case "reuseAv":
+		if !(c.A.L.IsContig()) {
+			c.A.L = Layout{Root: "rm"}
+		}
+	case "reuseBv":
+		if c.B != nil && !(c.B.L.IsContig()) {
+			c.B.L = Layout{Root: "rm"}
+		}
 	}
 	if inF25(c) {
 		rec.Class("excluded:F25")
@@ -82,7 +99,7 @@ func withMode(rt *rapid.T, c *EWCase, mode string, d DT) *EWCase {
 }
 
 var c07DTsQuick = []DT{dtInt8, dtInt32, dtUint16, dtUint64, dtF32, dtF64, dtC128}
-var ewModes = []string{"safe", "unsafe", "reuse", "reuseA", "reuseB", "incr"}
+var ewModes = []string{"safe", "unsafe", "reuse", "reuseA", "reuseB", "reuseAv", "reuseBv", "incr"}
 
 func c07DTs() []DT {
 	if thorough() {
@@ -141,6 +158,34 @@ func TestC07(t *testing.T) {
 					return c
 				})
 			}
+		}
+	}
+	for _, op := range cmpOps {
+		for _, mode := range []string{"safe", "safe-same", "unsafe", "reuse-same"} {
+			op, mode := op, mode
+			cell(t, "C07", "EW", "one-element/"+op+"/"+mode, nCases(12, 120), func(rt *rapid.T) Case {
+				d := rapid.SampledFrom([]DT{dtInt32, dtF64, dtUint8}).Draw(rt, "dt")
+				form := rapid.SampledFrom([]string{"TT", "TS", "ST"}).Draw(rt, "form")
+				c := genCmpMode(rt, "C07", op, d, form, rapid.SampledFrom([]string{"pkg", "method"}).Draw(rt, "via"), mode)
+				shape := rapid.SampledFrom([][]int{{1}, {1, 1}, {1, 1, 1}}).Draw(rt, "shape")
+				c.A = genOpnd(rt, shape, "contig", 0, 2, 0, "a1")
+				if c.B != nil {
+					b := genOpnd(rt, shape, "contig", 0, 2, 0, "b1")
+					c.B = &b
+				} else {
+					c.Scalar = rapid.Int64Range(0, 2).Draw(rt, "s1")
+				}
+				if c.Dst != nil {
+					dd := *c.Dst
+					dd.Shape, dd.Codes, dd.L = shape, []int64{5}, Layout{Root: "rm"}
+					c.Dst = &dd
+				}
+				if inF54(c) {
+					rec.Class("excluded:F54")
+					c.Form = "TS"
+				}
+				return c
+			})
 		}
 	}
 	for _, op := range cmpOps {
@@ -282,3 +327,8 @@ func TestC12(t *testing.T) {
 
 // inF17 is the region of known finding F17: one-element operands.
 func inF17(c *EWCase) bool { return c.Mode == "incr" && prod(c.A.Shape) == 1 }
+
+// inF54: a comparison with the scalar on the left, done in place (UseUnsafe) on a one-element tensor.
+func inF54(c *EWCase) bool {
+	return c.Fam == "cmp" && c.Form == "ST" && c.Mode == "unsafe" && prod(c.A.Shape) == 1
+}
